@@ -16,6 +16,11 @@ PROPS = {
     "C01": {
         "rule": "op 20: seeded well-formed messages (every payload kind incl. network trace, both byte orders, all optional header fields, 0-255 arguments of every kind/width/VARI/TRAI/coding, multi-byte UTF-8, float specials, boundary totals 65534/65535) x suffixes (empty, 1 byte, pattern, another message, 0xff run, random).",
     },
+    "C02": {
+        "spec_ops": ["60", "61"],
+        "rule": "op 61: well-formed messages of every payload kind, both byte orders, all optional header fields -> Message::as_bytes against Spec.Layout.spec_encode; op 60: dlt_message's verdict (message + consumed length / incomplete / reject) against Spec.Layout.spec_decode on canonical bytes with suffixes, every or one truncation of them (some in the wrong storage mode), dialect encodings (unused type-info bits, bool with any TYLE, NUL-padded / invalid-UTF-8 ids, interior NULs, size-0 strings, reserved SCOD, unknown MSTP/MTIN), malformed / mutated / length-corrupted / random inputs, junk and partial markers in front of storage headers. On the model side these two ops run the EXTRACTED REFERENCE CODEC, not the nom-style model: a disagreement is a violation of the property itself.",
+        "assumptions": ["Spec/Layout.v is the independent description of the AUTOSAR DLT layout (own bit-field code via testbit/div/mod, total non-streaming readers, cut-then-decode); it is proved equal to the model of the crate for all inputs (c02_encode, c02_decode) and run against the crate here"],
+    },
     "C03": {
         "rule": "op 21 (parse + use of the result), ops 10/11/12/3 on hostile inputs: mutated/truncated/length-corrupted/NOAR-corrupted well-formed messages, hand-made dialect and malformed encodings, random bytes, junk prefixes, inputs > 64 KiB with a 0xffff-sized string/raw argument; storage mode both ways; a third with a filter.",
     },
